@@ -9,6 +9,16 @@ import random
 from .replay import Obj
 from .types import (TBool, TEnum, TFloat, TFP, TInt, TMap, TNone, TOpaque, TOpt, TRef, TSeq, TSet, TStr, TTuple)
 
+SAMPLERS: dict = {}     # class name -> fn(scope, cls) -> Obj   (well-formed instances for the small-scope search)
+
+
+def sampler(cls_name):
+    def deco(fn):
+        SAMPLERS[cls_name] = fn
+        return fn
+    return deco
+
+
 INTS = [0, 1, 2, -1]
 FLOATS = [0.0, 1.0, 0.5, 2.0, math.inf, math.nan, -1.0]
 STRS = ["", "a", "_a", "__a", "ab"]
@@ -67,6 +77,8 @@ class Scope:
                 raise ValueError("object nesting too deep")
             subs = [c for c in self.e.ct.subclasses(t.cls)] or [t.cls]
             cls = r.choice(subs)
+            if cls in SAMPLERS:
+                return SAMPLERS[cls](self, cls)
             o = Obj(cls, self.next_ref)
             self.next_ref += 1
             for f, (dc, ft) in self.e.ct.all_fields(cls).items():
